@@ -20,7 +20,7 @@ ID = 'C19'
 LEVEL = 'exploration'
 ENGINE = 'E2'
 EXHAUSTIVE = True
-RULE = ('(wave 4: sources carrying none / porosity / + permeability / + nseq,nadd, compared as whole block states; '
+RULE = ('(wave 7: per mapping case at 2 variables, each state representation: transfer, give every variable of every block of the result its own value in place, then the result blocks / the source / a transfer of an equal fresh source / the edited result must each show what they should - 4 clauses reported separately; edit units: base geometry x convention x 18 edits made by the library itself (rename_column first/middle/last/cycled/reversed/each, rename_layer atm/first/middle/last/cycled, delete+add column first/middle/all reversed, delete column, two combined) x role (same object, equal copy, source of / target of each partner incl. the unedited base) x 3 x 3 atmosphere types, same oracle + identity on equal grids) (wave 4: sources carrying none / porosity / + permeability / + nseq,nadd, compared as whole block states; '
         'source block order geometry / reversed; per pair a history map, map again, translate and rotate the source, then '
         'the target, in place, each judged against the reference recomputed) (wave 3: source states as lists / ndarrays / set through inc.variable; second transfer with the mappings '
         'passed in; model cases with empty lists left at their defaults, alone and after a primer call with other '
@@ -51,10 +51,16 @@ ASSUMPTIONS = [
     'mulgrids.valid_blockname() (t2incon.read() refuses other names by design, e.g. letter layer names of conventions 1-3)',
     'refine() names its new columns in address-hashed set order: cases are identified by family letters, never by names']
 BOUNDS = {'quick': {'geometries': 'A B G J K L (36 ordered pairs)', 'atmosphere': '3 x 3', 'conventions': '(0,0) (0,1) (2,3)',
-                    'variables': '1..5', 'model': 'A, G x 3 atmosphere x conventions 0, 2 x (26 + 11 x 2) generator sets x 2 x 2'},
+                    'variables': '1..5', 'model': 'A, G x 3 atmosphere x conventions 0, 2 x (26 + 11 x 2) generator sets x 2 x 2',
+                    'edited geometries': 'bases A (conventions 0, 2), J x 18 edits x (self, copy, as source / target of base, B, C '
+                                         '(J: base, A)) x 3 x 3 atmosphere',
+                    'result edited in place': 'every mapping case at 2 variables x list / array / setvar states'},
           'thorough': {'geometries': 'A..L (144 ordered pairs)', 'atmosphere': '3 x 3', 'conventions': 'all 16 (4 with g7/J)',
                        'variables': '1..5', 'model': 'A..L x 3 atmosphere x 4 conventions (1 for g7/J) x (26 sets canonical names + 11 sets x 2 '
-                                'non-canonical namings) x 2 x 2'}}
+                                'non-canonical namings) x 2 x 2',
+                       'edited geometries': 'bases A, G, K (4 conventions), J x 18 edits x (self, copy, as source / target of base, '
+                                            'B, C, L, J (J: base, A, B, I)) x 3 x 3 atmosphere',
+                       'result edited in place': 'every mapping case at 2 variables x list / array / setvar states'}}
 TECHNIQUE = ('exhaustive enumeration of geometry pairs x atmosphere arrangements x conventions through the real '
              'block_mapping / transfer_from code against a brute-force nearest-centre reference')
 LEVEL_TEXT = ('Every ordered pair of the family, every one of the 9 atmosphere combinations and every convention pair is '
